@@ -259,6 +259,9 @@ func (ev *Evaluator) callFuncVal(pos token.Pos, fv *FuncVal, args []Value) Value
 	if fv.Native != nil {
 		return fv.Native(ev, args)
 	}
+	if fv.Fn != nil && fv.Lit == nil && fv.Decl == nil {
+		return ev.callTypesFunc(pos, fv.Fn, fv.Recv, args) // a named function used as a value (unicode.IsLetter as a predicate)
+	}
 	ev.depth++
 	if ev.depth > 200 {
 		ev.fail(pos, "call depth exceeded")
@@ -1826,6 +1829,44 @@ func (ev *Evaluator) native(pos token.Pos, fn *types.Func, recv Value, args []Va
 			ev.fail(pos, "Fields of symbolic string")
 		}
 		fs := strings.Fields(s.Const())
+		out := make([]Value, len(fs))
+		for i, f := range fs {
+			out[i] = S(f)
+		}
+		return NewSlice(out...), true
+	case "unicode.IsDigit", "unicode.IsSpace", "unicode.IsLower":
+		l, ok := args[0].(Lin)
+		if !ok || !l.IsConst() {
+			ev.fail(pos, "%s of a symbolic rune", full)
+		}
+		r := rune(l.C)
+		switch full {
+		case "unicode.IsDigit":
+			return r >= '0' && r <= '9', true
+		case "unicode.IsSpace":
+			return r == ' ' || (r >= '\t' && r <= '\r') || r == 0x85 || r == 0xA0, true
+		}
+		return r >= 'a' && r <= 'z', true
+	case "strings.FieldsFunc", "strings.TrimFunc", "strings.IndexFunc":
+		st := argStr(0)
+		pred, ok := args[1].(*FuncVal)
+		if !st.IsConst() || !ok {
+			ev.fail(pos, "%s of a symbolic string", full)
+		}
+		is := func(r rune) bool {
+			b, isBool := ev.callFuncVal(pos, pred, []Value{K(int64(r))}).(bool)
+			if !isBool {
+				ev.fail(pos, "%s: the predicate did not return a boolean", full)
+			}
+			return b
+		}
+		switch full {
+		case "strings.TrimFunc":
+			return S(strings.TrimFunc(st.Const(), is)), true
+		case "strings.IndexFunc":
+			return K(int64(strings.IndexFunc(st.Const(), is))), true
+		}
+		fs := strings.FieldsFunc(st.Const(), is)
 		out := make([]Value, len(fs))
 		for i, f := range fs {
 			out[i] = S(f)
